@@ -183,7 +183,8 @@ pub fn gen_case(seed: u64, idx: u64) -> (&'static str, String) {
             // trivia injection at token boundaries: unique comments and blank lines; keep only if it still parses
             let mut s = base.clone();
             let n = 1 + rng.below(3);
-            let mut points: Vec<usize> = (0..n).filter_map(|_| if toks.is_empty() { None } else { Some(toks[rng.below(toks.len())].0) }).collect();
+            // before a token, or (a third of the time) right after one — so a comment can touch the code it follows
+            let mut points: Vec<usize> = (0..n).filter_map(|_| if toks.is_empty() { None } else { let t = toks[rng.below(toks.len())]; Some(if rng.chance(1, 3) { t.1 } else { t.0 }) }).collect();
             points.sort(); points.dedup();
             for (k, p) in points.iter().enumerate().rev() {
                 // (sometimes with no space between the code and the `//`)
@@ -229,7 +230,7 @@ pub fn gen_case(seed: u64, idx: u64) -> (&'static str, String) {
 
 pub fn check(rep: &Report) {
     let quick = rep.quick();
-    let n: usize = if quick { 200_000 } else { 2_000_000 };
+    let n: usize = if quick { 800_000 } else { 4_000_000 };
     corpus_items();
     crate::pool::run_indexed(n, 64, |i| {
         let (fam, src) = gen_case(rep.seed, i as u64);
